@@ -258,8 +258,8 @@ func VerifC24Iff() {
 		e := &es[i]
 		e.local = addr.IA(verif.NondetU64("local"))
 		if allExp == 1 {
-			// every expiry value; case split, so that time arithmetic stays concrete
-			e.exp = uint8(verif.Concrete(uint64(verif.NondetU8("exp"))))
+			// every expiry value (the time arithmetic of time.Time.Add becomes symbolic)
+			e.exp = verif.NondetU8("exp")
 		} else {
 			// enumerated bound: entry i carries expiry c24Exps[(i+shift) mod 4]
 			e.exp = c24Exps[(i+verif.Param("shift"))%len(c24Exps)]
